@@ -9,8 +9,8 @@ SKIPped (reported), never silently counted as passing.
 VARIANTS = []
 
 
-def V(prop, name, file, old, new, expect, where=None, count=1):
-    VARIANTS.append(dict(prop=prop, name=name, file=file, old=old, new=new, expect=expect, where=where, count=count))
+def V(prop, name, file, old, new, expect, where=None, count=1, edits=None):
+    VARIANTS.append(dict(prop=prop, name=name, file=file, old=old, new=new, expect=expect, where=where, count=count, edits=edits))
 
 
 # ---------------------------------------------------------------- C20
@@ -1054,8 +1054,10 @@ V("C14", "twin-hydrogen-locals-renamed", GEOC, "                fvec4 r_co = pc-
 V("C05", "twin-triclinic-locals-renamed", GEOC, '            fvec4 r12 = pos2-pos1;\n            r12 -= box_vec3*round(r12[2]*recip_box_size[2]);\n            r12 -= box_vec2*round(r12[1]*recip_box_size[1]);\n            r12 -= box_vec1*round(r12[0]*recip_box_size[0]);\n\n            // We need to consider 27 possible periodic copies.\n\n            float min_dist2 = FLT_MAX;\n            fvec4 min_r = r12;\n            for (int x = -1; x < 2; x++) {\n                fvec4 ra = r12 + box_vec1*x;\n                for (int y = -1; y < 2; y++) {\n                    fvec4 rb = ra + box_vec2*y;\n                    for (int z = -1; z < 2; z++) {\n                        fvec4 rc = rb + box_vec3*z;\n                        float dist2 = dot3(rc, rc);\n                        if (dist2 <= min_dist2) {\n                            min_dist2 = dist2;\n                            min_r = rc;\n                        }\n                    }\n                }\n            }\n\n            // Store results.\n\n            if (store_displacement) {\n                float temp[4];\n                min_r.store(temp);\n                *displacement_out = temp[0];\n                displacement_out++;\n                *displacement_out = temp[1];\n                displacement_out++;\n                *displacement_out = temp[2];\n                displacement_out++;\n            }\n            if (store_distance) {\n                *distance_out = sqrtf(min_dist2);\n                distance_out++;\n            }\n        }\n\n        // Advance to the next frame.\n\n        xyz += n_atoms*3;\n        box_matrix += 9;', '            fvec4 dr = pos2-pos1;\n            dr -= box_vec3*round(dr[2]*recip_box_size[2]);\n            dr -= box_vec2*round(dr[1]*recip_box_size[1]);\n            dr -= box_vec1*round(dr[0]*recip_box_size[0]);\n\n            // We need to consider 27 possible periodic copies.\n\n            float best2 = FLT_MAX;\n            fvec4 best = dr;\n            for (int x = -1; x < 2; x++) {\n                for (int y = -1; y < 2; y++) {\n                    for (int z = -1; z < 2; z++) {\n                        fvec4 rc = dr + box_vec3*z + box_vec2*y + box_vec1*x;\n                        float len2 = dot3(rc, rc);\n                        if (len2 <= best2) {\n                            best = rc;\n                            best2 = len2;\n                        }\n                    }\n                }\n            }\n\n            // Store results.\n\n            if (store_displacement) {\n                float temp[4];\n                best.store(temp);\n                *displacement_out = temp[0];\n                displacement_out++;\n                *displacement_out = temp[1];\n                displacement_out++;\n                *displacement_out = temp[2];\n                displacement_out++;\n            }\n            if (store_distance) {\n                *distance_out = sqrtf(best2);\n                distance_out++;\n            }\n        }\n\n        // Advance to the next frame.\n\n        xyz += n_atoms*3;\n        box_matrix += 9;', None)
 
 # ---------------------------------------------------------------- rules added after the second independent sample
-V('C02', 'twin-mdcrd-skip-by-line-count', 'mdtraj/formats/mdcrd.py', '            for j in range(stride - 1):\n                # throw away these frames\n                try:\n                    self._read()\n                except _EOF:\n                    break\n\n        coords = np.array(coords)\n        if all(b is None for b in boxes):\n            # if there was no box information in any frame, that\'s cool\n            return coords, None\n\n        if not all(b is not None for b in boxes):\n            # but if some of them had box information and others didn\'t\n            # that probably means there was a bug in the parsing.\n            raise OSError(\n                "Inconsistent box information. Try manually " "setting has_box? Your mdcrd file might be " "corrupt.",\n            )\n\n        return coords, np.array(boxes, dtype=np.float32)\n\n    def _read(self):\n        "Read a single frame"\n        i = 0\n        coords = np.empty(self._n_atoms * 3, dtype=np.float32)\n        box = None\n\n        while i < self._n_atoms * 3:\n            line = self._fh.readline()\n            self._line_counter += 1\n\n            if line == b"":\n                raise _EOF()\n            try:\n                items = [float(line[j : j + 8]) for j in range(0, len(line.rstrip()), 8)]\n                assert 0 < len(items) <= 10\n            except Exception:\n                raise OSError(\n                    \'mdcrd parse error on line %d of "%s". This file \'\n                    "does not appear to be a valid mdcrd file." % (self._line_counter, self._filename),\n                )\n\n            length = len(items)\n\n            if i + length > len(coords):\n                raise OSError(\n                    "mdcrd parse error: specified n_atoms (%d) is likely incorrect. "\n                    "Incorrect buffer size encountered on line=%d"\n                    % (\n                        self._n_atoms,\n                        self._line_counter,\n                    ),\n                )\n\n            coords[i : i + length] = items\n            i += length\n\n            if i == self._n_atoms * 3:\n                if self._has_box is False:\n                    break\n\n                # peek ahead for box\n                here = self._fh.tell()\n                line = self._fh.readline()\n                peek = [float(elem) for elem in line.strip().split()]\n                if len(peek) == 3:\n                    box = peek\n                else:\n                    if self._has_box is True:\n                        raise OSError("Box information not found in file.")\n                    self._fh.seek(-len(line), 1)\n                    self._fh.seek(here)\n                break\n\n        self._frame_index += 1\n        return coords.reshape(self._n_atoms, 3), box\n\n', '            for j in range(stride - 1):\n                # throw away these frames\n                try:\n                    self._skip()\n                except _EOF:\n                    break\n\n        coords = np.array(coords)\n        if all(b is None for b in boxes):\n            # if there was no box information in any frame, that\'s cool\n            return coords, None\n\n        if not all(b is not None for b in boxes):\n            # but if some of them had box information and others didn\'t\n            # that probably means there was a bug in the parsing.\n            raise OSError(\n                "Inconsistent box information. Try manually " "setting has_box? Your mdcrd file might be " "corrupt.",\n            )\n\n        return coords, np.array(boxes, dtype=np.float32)\n\n    def _read(self):\n        "Read a single frame"\n        i = 0\n        coords = np.empty(self._n_atoms * 3, dtype=np.float32)\n        box = None\n\n        while i < self._n_atoms * 3:\n            line = self._fh.readline()\n            self._line_counter += 1\n\n            if line == b"":\n                raise _EOF()\n            try:\n                items = [float(line[j : j + 8]) for j in range(0, len(line.rstrip()), 8)]\n                assert 0 < len(items) <= 10\n            except Exception:\n                raise OSError(\n                    \'mdcrd parse error on line %d of "%s". This file \'\n                    "does not appear to be a valid mdcrd file." % (self._line_counter, self._filename),\n                )\n\n            length = len(items)\n\n            if i + length > len(coords):\n                raise OSError(\n                    "mdcrd parse error: specified n_atoms (%d) is likely incorrect. "\n                    "Incorrect buffer size encountered on line=%d"\n                    % (\n                        self._n_atoms,\n                        self._line_counter,\n                    ),\n                )\n\n            coords[i : i + length] = items\n            i += length\n\n            if i == self._n_atoms * 3:\n                if self._has_box is False:\n                    break\n\n                # peek ahead for box\n                here = self._fh.tell()\n                line = self._fh.readline()\n                peek = [float(elem) for elem in line.strip().split()]\n                if len(peek) == 3:\n                    box = peek\n                else:\n                    if self._has_box is True:\n                        raise OSError("Box information not found in file.")\n                    self._fh.seek(-len(line), 1)\n                    self._fh.seek(here)\n                break\n\n        self._frame_index += 1\n        return coords.reshape(self._n_atoms, 3), box\n\n    def _skip(self):\n        "Advance over a single frame without converting its numbers"\n        n_lines = (self._n_atoms * 3 + 9) // 10\n        for i in range(n_lines):\n            if self._fh.readline() == b"":\n                raise _EOF()\n        self._line_counter += n_lines\n        if self._has_box is not False:\n            here = self._fh.tell()\n            if len(self._fh.readline().split()) != 3:\n                if self._has_box is True:\n                    raise OSError("Box information not found in file.")\n                self._fh.seek(here)\n        self._frame_index += 1\n\n', None)
-V('C02', 'mdcrd-skip-line-count-off-by-one', 'mdtraj/formats/mdcrd.py', '            for j in range(stride - 1):\n                # throw away these frames\n                try:\n                    self._read()\n                except _EOF:\n                    break\n\n        coords = np.array(coords)\n        if all(b is None for b in boxes):\n            # if there was no box information in any frame, that\'s cool\n            return coords, None\n\n        if not all(b is not None for b in boxes):\n            # but if some of them had box information and others didn\'t\n            # that probably means there was a bug in the parsing.\n            raise OSError(\n                "Inconsistent box information. Try manually " "setting has_box? Your mdcrd file might be " "corrupt.",\n            )\n\n        return coords, np.array(boxes, dtype=np.float32)\n\n    def _read(self):\n        "Read a single frame"\n        i = 0\n        coords = np.empty(self._n_atoms * 3, dtype=np.float32)\n        box = None\n\n        while i < self._n_atoms * 3:\n            line = self._fh.readline()\n            self._line_counter += 1\n\n            if line == b"":\n                raise _EOF()\n            try:\n                items = [float(line[j : j + 8]) for j in range(0, len(line.rstrip()), 8)]\n                assert 0 < len(items) <= 10\n            except Exception:\n                raise OSError(\n                    \'mdcrd parse error on line %d of "%s". This file \'\n                    "does not appear to be a valid mdcrd file." % (self._line_counter, self._filename),\n                )\n\n            length = len(items)\n\n            if i + length > len(coords):\n                raise OSError(\n                    "mdcrd parse error: specified n_atoms (%d) is likely incorrect. "\n                    "Incorrect buffer size encountered on line=%d"\n                    % (\n                        self._n_atoms,\n                        self._line_counter,\n                    ),\n                )\n\n            coords[i : i + length] = items\n            i += length\n\n            if i == self._n_atoms * 3:\n                if self._has_box is False:\n                    break\n\n                # peek ahead for box\n                here = self._fh.tell()\n                line = self._fh.readline()\n                peek = [float(elem) for elem in line.strip().split()]\n                if len(peek) == 3:\n                    box = peek\n                else:\n                    if self._has_box is True:\n                        raise OSError("Box information not found in file.")\n                    self._fh.seek(-len(line), 1)\n                    self._fh.seek(here)\n                break\n\n        self._frame_index += 1\n        return coords.reshape(self._n_atoms, 3), box\n\n', '            for j in range(stride - 1):\n                # throw away these frames\n                try:\n                    self._skip()\n                except _EOF:\n                    break\n\n        coords = np.array(coords)\n        if all(b is None for b in boxes):\n            # if there was no box information in any frame, that\'s cool\n            return coords, None\n\n        if not all(b is not None for b in boxes):\n            # but if some of them had box information and others didn\'t\n            # that probably means there was a bug in the parsing.\n            raise OSError(\n                "Inconsistent box information. Try manually " "setting has_box? Your mdcrd file might be " "corrupt.",\n            )\n\n        return coords, np.array(boxes, dtype=np.float32)\n\n    def _read(self):\n        "Read a single frame"\n        i = 0\n        coords = np.empty(self._n_atoms * 3, dtype=np.float32)\n        box = None\n\n        while i < self._n_atoms * 3:\n            line = self._fh.readline()\n            self._line_counter += 1\n\n            if line == b"":\n                raise _EOF()\n            try:\n                items = [float(line[j : j + 8]) for j in range(0, len(line.rstrip()), 8)]\n                assert 0 < len(items) <= 10\n            except Exception:\n                raise OSError(\n                    \'mdcrd parse error on line %d of "%s". This file \'\n                    "does not appear to be a valid mdcrd file." % (self._line_counter, self._filename),\n                )\n\n            length = len(items)\n\n            if i + length > len(coords):\n                raise OSError(\n                    "mdcrd parse error: specified n_atoms (%d) is likely incorrect. "\n                    "Incorrect buffer size encountered on line=%d"\n                    % (\n                        self._n_atoms,\n                        self._line_counter,\n                    ),\n                )\n\n            coords[i : i + length] = items\n            i += length\n\n            if i == self._n_atoms * 3:\n                if self._has_box is False:\n                    break\n\n                # peek ahead for box\n                here = self._fh.tell()\n                line = self._fh.readline()\n                peek = [float(elem) for elem in line.strip().split()]\n                if len(peek) == 3:\n                    box = peek\n                else:\n                    if self._has_box is True:\n                        raise OSError("Box information not found in file.")\n                    self._fh.seek(-len(line), 1)\n                    self._fh.seek(here)\n                break\n\n        self._frame_index += 1\n        return coords.reshape(self._n_atoms, 3), box\n\n    def _skip(self):\n        "Advance over a single frame without converting its numbers"\n        n_lines = self._n_atoms * 3 // 10 + 1\n        for i in range(n_lines):\n            if self._fh.readline() == b"":\n                raise _EOF()\n        self._line_counter += n_lines\n        if self._has_box is not False:\n            here = self._fh.tell()\n            if len(self._fh.readline().split()) != 3:\n                if self._has_box is True:\n                    raise OSError("Box information not found in file.")\n                self._fh.seek(here)\n        self._frame_index += 1\n\n', 'C02-R2')
+_MDCRD_SKIP = '    def _skip(self):\n        "Advance over a single frame without converting its numbers"\n        n_lines = %s\n        for i in range(n_lines):\n            if self._fh.readline() == b"":\n                raise _EOF()\n        self._line_counter += n_lines\n        if self._has_box is not False:\n            here = self._fh.tell()\n            if len(self._fh.readline().split()) != 3:\n                if self._has_box is True:\n                    raise OSError("Box information not found in file.")\n                self._fh.seek(here)\n        self._frame_index += 1\n\n    def write(self, xyz, cell_lengths=None):'
+_MDCRD_E1 = ('                # throw away these frames\n                try:\n                    self._read()\n                except _EOF:\n                    break', '                # throw away these frames\n                try:\n                    self._skip()\n                except _EOF:\n                    break')
+V("C02", "twin-mdcrd-skip-by-line-count", "mdtraj/formats/mdcrd.py", None, None, None, edits=[_MDCRD_E1, ("    def write(self, xyz, cell_lengths=None):", _MDCRD_SKIP % "(self._n_atoms * 3 + 9) // 10")])
+V("C02", "mdcrd-skip-line-count-off-by-one", "mdtraj/formats/mdcrd.py", None, None, "C02-R2", edits=[_MDCRD_E1, ("    def write(self, xyz, cell_lengths=None):", _MDCRD_SKIP % "self._n_atoms * 3 // 10 + 1")])
 V("C02", "lammps-selection-inside-parser", LMPF, "                frame_coords, frame_lengths, frame_angles = self._read()", "                frame_coords, frame_lengths, frame_angles = self._read(atom_indices)", "C02-R5")
 V("C03", "remove-solvent-returns-self", TRJ, "        return self.atom_slice(atom_indices, inplace=inplace)\n\n    def smooth(", "        if len(atom_indices) == self.n_atoms:\n            return self\n        return self.atom_slice(atom_indices, inplace=inplace)\n\n    def smooth(", "C03-R6")
 V("C03", "twin-remove-solvent-early-copy", TRJ, "        return self.atom_slice(atom_indices, inplace=inplace)\n\n    def smooth(", "        if inplace and len(atom_indices) == self.n_atoms:\n            return self\n        return self.atom_slice(atom_indices, inplace=inplace)\n\n    def smooth(", None)
